@@ -4,7 +4,7 @@ from .sched import P, submit_all
 PLANS = {}
 
 # --- dependency graphs, every embedding of an upstream task (C04)
-EMBEDDINGS = ["direct", "list", "dict", "nested", "nestedlist", "pre", "init", "explicit", "meta"]
+EMBEDDINGS = ["direct", "list", "dict", "nested", "nestedlist", "pre", "init", "explicit", "meta", "listlist", "listdict", "taskobj"]
 for how in EMBEDDINGS:
     PLANS[f"chain2-{how}"] = P({"a": {}, "b": {"deps": {"a": how}}}, submit_all("ab"))
     PLANS[f"chain2out-{how}"] = P({"a": {"out": True}, "b": {"deps": {"a": how}}}, submit_all("ab"))
@@ -16,6 +16,8 @@ PLANS["diamond"] = P(
     submit_all("abcd"),
 )
 
+# a flat and a nested embedding side by side: the flat upstream ends first, the nested ones still run
+PLANS["mixed-depth"] = P({"a": {}, "b": {}, "c": {}, "d": {"deps": {"a": "list", "b": "listlist", "c": "listdict"}}}, submit_all("abcd"))
 # an output handed on by a second task (a -> b passes a's output on -> c consumes it: c must wait for b)
 PLANS["chain-pass"] = P({"a": {"out": True}, "b": {"deps": {"a": "direct"}, "pass": True}, "c": {"deps": {"b": "direct"}}}, submit_all("abc"))
 PLANS["chain-pass-list"] = P({"a": {"out": True}, "b": {"deps": {"a": "direct"}, "pass": True}, "c": {"deps": {"b": "list"}}, "d": {"deps": {"a": "dict"}}},
@@ -126,5 +128,9 @@ PLANS["kill-restart-oom"] = P(
     {"a": {"codes": [9]}, "b": {"deps": {"a": "direct"}}},
     [["submit", "a"], ["submit", "b"], ["kill"], ["restart"], ["submit", "a"], ["submit", "b"], ["wait"]],
 )
+
+# --- the launcher cannot start the process of a job (C06, C07)
+PLANS["startfail"] = P({"a": {"codes": [8]}, "b": {"deps": {"a": "direct"}}, "c": {}}, submit_all("abc"))
+PLANS["startfail-tok"] = P({"a": {"codes": [8], "tok": {"t": 1}}, "b": {"tok": {"t": 1}}}, submit_all("ab"), {"t": 1})
 
 QUICK = list(PLANS)
